@@ -3,10 +3,11 @@ from contracts.parsr import M
 
 T = "insights/core/taglang.py"
 SIDECARS = ["parsr"]
-_CLASSES = ["AnyChar", "Char", "InSet", "Sequence", "Choice", "Many", "FollowedBy", "NotFollowedBy", "KeepLeft", "KeepRight", "Opt"]
+_CLASSES = ["AnyChar", "Char", "InSet", "Sequence", "Choice", "Many", "FollowedBy", "NotFollowedBy", "KeepLeft", "KeepRight", "Opt",
+            "Wrapper", "Forward", "EOF", "Literal", "Until", "Map"]
 UNITS = [(M, c + ".process") for c in _CLASSES] + [(T, "Not.test"), (T, "And.test"), (T, "Or.test")]
-NOT_CARRIED = ["String, Literal, Until, Map, Lift, Forward, Wrapper, PosMarker, EOF and the comment / indentation parsers are not under contract "
-               "in this revision",
+NOT_CARRIED = ["String, Lift, PosMarker, the comment / indentation / tag-name parsers are not under contract in this revision; Literal: positions and the "
+               "match condition for both case modes, the value only for the case-sensitive mode and for an explicit value",
                "the _ParserMeta debug wrapper (_debug_hook) around every process()",
                "the interface P.process (ok/npos/val) is the denotation each class's contract DEFINES by its equation; that a grammar built from these classes computes the composed denotation: structural induction over grammar terms (meta-step)",
                "the shipped grammars as wholes (JSON example grammar vs json; tag language precedence as parsed): whole-grammar language "
